@@ -259,10 +259,16 @@ def coq_eval(workdir: Path, tag: str, prelude: str, failing_fn: str, terms: list
 # --------------------------------------------------------------------------- findings
 
 def load_known() -> list[dict]:
+    """known_findings.json plus known_findings.d/*.json (committed; never written at run time)."""
+    out = []
     p = VERIF / "known_findings.json"
-    if not p.exists():
-        return []
-    return json.loads(p.read_text()).get("entries", [])
+    if p.exists():
+        out.extend(json.loads(p.read_text()).get("entries", []))
+    d = VERIF / "known_findings.d"
+    if d.exists():
+        for f in sorted(d.glob("*.json")):
+            out.extend(json.loads(f.read_text()).get("entries", []))
+    return out
 
 
 def canon(case) -> str:
